@@ -183,10 +183,13 @@ def run_stream(text: str, doc: Any, sseed: int, profile: Dict[str, Any], feed: O
     """
     assert _NENV is not None
     sim = simrandom.SimRandom(sseed, profile, feed)
+    sim.cap = 50_000  # decisions per evaluation; documents here have < 50 nodes
     simrandom.install(sim)
     try:
         try:
             nodes = _NENV.find(text, doc)
+        except simrandom.ChoiceBudgetExceeded:
+            return None, "no-termination: more than 50000 random decisions consumed", True, sim.log[:200], sim.draws
         except Exception as exc:  # noqa: BLE001
             return None, type(exc).__name__, True, sim.log, sim.draws
     finally:
